@@ -171,6 +171,7 @@ func cmdRun(args []string) {
 	budget := fs.Float64("budget", 0, "wall budget (s)")
 	validate := fs.Int("validate", 0, "paths to validate natively")
 	stepcap := fs.Int("stepcap", 0, "per-path step cap")
+	tracePath := fs.String("trace", "", "replay file: re-execute that one path with a trace of scheduling points")
 	fs.Parse(args)
 	rel := strings.TrimPrefix(*pkgRel, "./")
 	l, err := load(repoRoot(), verifRoot(), []string{rel})
@@ -183,6 +184,17 @@ func cmdRun(args []string) {
 	if fn == nil {
 		fmt.Println("no harness", *fnName, "; available:", l.harnessNames(rel))
 		os.Exit(2)
+	}
+	if *tracePath != "" {
+		var rp struct {
+			Decision []int
+			Vars     map[string]uint64
+		}
+		json.Unmarshal(rd(*tracePath), &rp)
+		o := &Opts{Workers: 1, Preempt: *pbound, MaxZeros: *maxZeros, Thorough: *thorough, Trace: true}
+		v := Violation{Decision: rp.Decision, Vars: rp.Vars}
+		fmt.Println("reproduced:", replayInterp(l, rel, *fnName, v, o))
+		return
 	}
 	o := &Opts{Workers: *workers, Preempt: *pbound, MaxZeros: *maxZeros, Thorough: *thorough, MaxPaths: *maxPaths, BudgetS: *budget, Verbose: true, Samples: 3, Validate: *validate, StepCap: *stepcap}
 	res := explore(l.M, fn, o)
